@@ -297,7 +297,21 @@ def lib_np_dot(eng, st, args, kw, node):
     if a.t[0] in ("list", "nd") and b.t[0] in ("list", "nd"):
         f = z3.Function("dot", st.seq_elems(a).sort(), st.seq_elems(b).sort(), z3.IntSort(), eng.ctx.fsort())
         eng.ctx.tags.add("AX_numpy_dot_is_a_function_of_the_elements")
-        return V(("float",), f(st.seq_elems(a), st.seq_elems(b), st.seq_len(a)))
+        ea, eb, n = st.seq_elems(a), st.seq_elems(b), st.seq_len(a)
+        real_arr = z3.ArraySort(z3.IntSort(), z3.RealSort())
+        if ea.sort() == real_arr and eb.sort() == real_arr:
+            # assumed properties of np.dot on float vectors (IEEE negation is exact, rounding is symmetric, products commute
+            # and the summation order is the same): dot(-a, w) == -dot(a, w) == dot(a, -w); dot(a, w) == dot(w, a)
+            neg = z3.Function("negarr", real_arr, real_arr)
+            k = z3.Int(eng.ctx.fresh_name("ng"))
+            for e_ in (ea, eb):
+                st.assume(qforall([k], neg(e_)[k] == -e_[k], patterns=[neg(e_)[k]]))
+            st.assume(f(neg(ea), eb, n) == -f(ea, eb, n))
+            st.assume(f(ea, neg(eb), n) == -f(ea, eb, n))
+            xa, xb, xn = z3.Const("dot_a", real_arr), z3.Const("dot_b", real_arr), z3.Int("dot_n")
+            st.assume(qforall([xa, xb, xn], f(xa, xb, xn) == f(xb, xa, xn), patterns=[f(xa, xb, xn)]))
+            eng.ctx.tags.add("AX_numpy_dot_of_negated_vector_is_negated_and_dot_commutes")
+        return V(("float",), f(ea, eb, n))
     raise Unsupported(f"np.dot of {a.t} and {b.t}")
 
 
